@@ -175,6 +175,10 @@ def _run(prog, chk):
         ("FIRST", [(A, FI, 0), (B, 0, 0)], [(A, 0), (B, 0)], [(B, 0), (A, 0)]),
         ("LAST", [(A, 0, 0), (B, LA, 0)], [(A, 0), (B, 0)], [(B, 0), (A, 0)]),
         ("FIXED_ORDER", [(A, FO, 0), (B, FO, 0)], [(A, 0), (B, 0)], [(B, 0), (A, 0)]),
+        # repeated sections (certificate records, publication records): an element of an earlier section after a later one has begun
+        ("FIXED_ORDER, repeated sections interleaved", [(A, FO, 1), (B, FO, 1), (C, FO, 0)], [(A, 0), (A, 0), (B, 0), (B, 0), (C, 0)], [(A, 0), (B, 0), (A, 0), (B, 0), (C, 0)]),
+        ("FIXED_ORDER, earlier section re-entered at the end", [(A, FO, 1), (B, FO, 1)], [(A, 0), (B, 0), (B, 0)], [(A, 0), (A, 0), (B, 0), (A, 0)]),
+        ("FIXED_ORDER, single header after a repeated section", [(A, FO | M, 0), (B, FO, 1)], [(A, 0), (B, 0), (B, 0)], [(B, 0), (A, 0), (B, 0)]),
         ("unknown critical element", [(A, 0, 0)], [(A, 0), (X, 1)], [(A, 0), (X, 0)]),
         ("unknown critical element, two-byte tag", [(A, 0, 0)], [(0x1f7e, 1), (A, 0)], [(0x1f7e, 0), (A, 0)]),
         ("unknown critical element, tag 0", [(A, 0, 0)], None, [(0, 0)]),
